@@ -123,9 +123,20 @@ def run(ctx):
         return (tuple(st["reg"][c] for c in names), l["res"] if l["op"] != "unregister" else "any", l["called"])
 
     for kind, mk_res, mk_disp in (("server", mk_server, D.ServerMessageDispatcher), ("client", mk_client, D.ClientMessageDispatcher)):
+        other_mk_res, other_mk_disp = (mk_client, D.ClientMessageDispatcher) if kind == "server" else (mk_server, D.ServerMessageDispatcher)
+
         def make():
             d = mk_disp()
-            return dict(d=d, res=mk_res())
+            # bystanders: other dispatchers alive in the same process.  A dispatcher's answers depend on ITS table only - two fully registered ones (same kind and
+            # the other kind) are asked the same question just before, an empty one just after, and none of them may leak into or out of the one under test
+            full, ofull, empty = mk_disp(), other_mk_disp(), mk_disp()
+            for disp, mk in ((full, mk_res), (ofull, other_mk_res)):
+                for robj in mk().values():
+                    try:
+                        disp.register(robj)
+                    except Exception:
+                        pass
+            return dict(d=d, res=mk_res(), full=full, ofull=ofull, empty=empty)
 
         def project(o):
             out = []
@@ -160,6 +171,12 @@ def run(ctx):
             elif kindop == "dispatch":
                 msg = cls[arg](v=7)
                 token = object()
+                for disp, srv in ((o["full"], kind == "server"), (o["ofull"], kind != "server")):
+                    try:
+                        disp.dispatch(token, 42, msg) if srv else disp.dispatch(42, msg)
+                    except Exception:
+                        pass
+                del log[:]
                 try:
                     if kind == "server":
                         o["d"].dispatch(token, 42, msg)
@@ -180,6 +197,16 @@ def run(ctx):
                     called = rn if passed else "WRONG-ARGS"
                 elif len(log) > 1:
                     called = "MANY:%d" % len(log)
+                n_before = len(log)
+                try:
+                    o["empty"].dispatch(token, 42, msg) if kind == "server" else o["empty"].dispatch(42, msg)
+                    bres = "no error"
+                except D.DispatchError:
+                    bres = "DispatchError"
+                except Exception as e:
+                    bres = type(e).__name__
+                if bres != "DispatchError" or len(log) != n_before:
+                    called = "EMPTY-BYSTANDER-DISPATCHER:%s,%d-handlers-called" % (bres, len(log) - n_before)
             return (project(o), res, called)
 
         def on_case(s, op):
